@@ -26,7 +26,7 @@ EXHAUSTIVE = True
 RULE = ("E1: complete product of Uri-Path lists (length <= 2 over a 13-component alphabet: '', '.', '..', names, 'a/b', "
         "'../outside.txt', NUL, '~', non-ASCII; length 3 with three methods; plus absolute-path lists built from the sandbox's own "
         "location) x {GET, PUT, DELETE, POST, FETCH} x write off/on x {no condition, If-None-Match, If-Match '', If-Match wrong} x "
-        "Observe {absent, 0}; block fetches of files of sizes 0,1,15,16,17,1023,1024,1025,2049 at SZX 0-6 in order and out of order. "
+        "Observe {absent, 0} (If-None-Match also combined with If-Match); two servers with roots of their own in one process; block fetches of files of sizes 0,1,15,16,17,1023,1024,1025,2049 at SZX 0-6 in order and out of order. "
         "distinct = distinct (path shape, method, flags, outcome class)")
 ASSUMPTIONS = [
     "file-system accesses are observed through CPython audit events (open, os.listdir/scandir, os.rename, os.remove, os.mkdir, "
